@@ -700,6 +700,51 @@ theorem destroyEv_inv (s : State) (e : Nat) (h : Inv s) : Inv (destroyEv s e).1 
       exact k
   · simpa [ha] using h
 
+/-- `t` is `s` up to the kernel conditions of the descriptors, the open flags and the ghost flag: nothing the
+invariant (or the provenance of records) speaks about -/
+structure SameCore (s t : State) : Prop where
+  evs : t.evs = s.evs
+  nEv : t.nEv = s.nEv
+  recs : t.recs = s.recs
+  kern : t.kern = s.kern
+  gen : t.gen = s.gen
+  serial : t.serial = s.serial
+  log : t.log = s.log
+
+theorem inv_sameCore {s t : State} (h : Inv s) (c : SameCore s t) : Inv t := by
+  obtain ⟨e1, e2, e3, e4, e5, e6, e7⟩ := c
+  refine ⟨?_, ?_, ?_, ?_, ?_⟩
+  · intro f r hr
+    rw [e3] at hr
+    exact (h.recs f r hr).transfer (fun e => by unfold Holds; rw [e1]) (fun e => by unfold Subd Holds; rw [e1])
+      (fun e _ => by rw [e1]) (by rw [e4]) (by rw [e6]; exact Nat.le_refl _) (by rw [e5])
+  · intro f hn
+    rw [e3] at hn
+    have := h.norec f hn
+    rw [e4]; unfold Holds; rw [e1]; exact this
+  · intro e; rw [e1]; exact h.evs e
+  · intro e he; rw [e1]; rw [e2] at he; exact h.fresh e he
+  · rw [e7]; exact h.log
+
+theorem setFlags_core (s : State) (f : Nat) (a b c d e g : Bool) : SameCore s (setFlags s f a b c d e g) :=
+  ⟨rfl, rfl, rfl, rfl, rfl, rfl, rfl⟩
+
+/-- run-time kernel conditions touch nothing the invariant speaks about -/
+theorem condFd_core (s : State) (f c : Nat) : SameCore s (condFd s f c).1 := by
+  unfold condFd
+  repeat' split
+  all_goals first | exact ⟨rfl, rfl, rfl, rfl, rfl, rfl, rfl⟩ | exact setFlags_core ..
+
+theorem condFd_inv (s : State) (f c : Nat) (h : Inv s) : Inv (condFd s f c).1 := inv_sameCore h (condFd_core s f c)
+
+/-- **a refused `EPOLL_CTL_ADD` keeps the invariant**: the bookkeeping is that of `enable()`; the kernel entry stays
+"the cached mask or nothing" -/
+theorem enableEvF_inv (s : State) (e : Nat) (h : Inv s) : Inv (enableEvF s e).1 := by
+  have c1 : SameCore s (refuseAdd s (s.evs e).fd) := ⟨rfl, rfl, rfl, rfl, rfl, rfl, rfl⟩
+  have c2 : SameCore (enableEv (refuseAdd s (s.evs e).fd) e).1 (restoreOpen s (enableEv (refuseAdd s (s.evs e).fd) e).1) :=
+    ⟨rfl, rfl, rfl, rfl, rfl, rfl, rfl⟩
+  exact inv_sameCore (enableEv_inv _ e (inv_sameCore h c1)) c2
+
 theorem act_inv (s : State) (a : Act) (h : Inv s) : Inv (act s a).1 := by
   cases a with
   | init e f m o => exact initEv_inv s e f m o h
@@ -713,6 +758,8 @@ theorem act_inv (s : State) (a : Act) (h : Inv s) : Inv (act s a).1 := by
   | oob f => exact setReady_inv s f _ _ _ h
   | arm k => exact h
   | post k => exact h
+  | cond f c => exact condFd_inv s f c h
+  | enableF e => exact enableEvF_inv s e h
 
 theorem runScript_inv (sc : List Act) : ∀ (s : State), Inv s → Inv (runScript s sc) := by
   induction sc with
@@ -861,6 +908,15 @@ theorem setReady_prov (s : State) (f : Nat) (rd wr : Option Bool) (ob : Bool) :
   · exact Prov.refl s
   · exact prov_of_recs (by exact Nat.le_refl _) (fun _ r' h => ⟨r', h, rfl, rfl⟩)
 
+theorem prov_sameCore {s t : State} (c : SameCore s t) : Prov s t :=
+  prov_of_recs (by rw [c.serial]; exact Nat.le_refl _) (fun f r' h => ⟨r', by rw [← c.recs]; exact h, rfl, rfl⟩)
+
+theorem enableEvF_prov (s : State) (e : Nat) : Prov s (enableEvF s e).1 := by
+  have c1 : SameCore s (refuseAdd s (s.evs e).fd) := ⟨rfl, rfl, rfl, rfl, rfl, rfl, rfl⟩
+  have c2 : SameCore (enableEv (refuseAdd s (s.evs e).fd) e).1 (restoreOpen s (enableEv (refuseAdd s (s.evs e).fd) e).1) :=
+    ⟨rfl, rfl, rfl, rfl, rfl, rfl, rfl⟩
+  exact ((prov_sameCore c1).trans (enableEv_prov _ e)).trans (prov_sameCore c2)
+
 theorem act_prov (s : State) (a : Act) : Prov s (act s a).1 := by
   cases a with
   | init e f m o => exact initEv_prov s e f m o
@@ -882,6 +938,8 @@ theorem act_prov (s : State) (a : Act) : Prov s (act s a).1 := by
   | oob f => exact setReady_prov s f _ _ _
   | arm k => exact Prov.refl s
   | post k => exact Prov.refl s
+  | cond f c => exact prov_sameCore (condFd_core s f c)
+  | enableF e => exact enableEvF_prov s e
 
 theorem runScript_prov (sc : List Act) : ∀ s : State, Prov s (runScript s sc) := by
   induction sc with
